@@ -4,7 +4,7 @@ import z3
 from ..engine import AND, OR, NOT
 from ..values import is_variant, payload, ite
 from .. import replay as rp
-from .setops import bits_for, fnr, built
+from .setops import premise_group, bits_for, fnr, built
 from . import c07, c08
 
 BOUNDS = {'quick': {'composition depth': 2, 'alternatives per leaf': '1 (direct instances); 1..2 for the inductive step', 'result capacity': 8},
@@ -41,6 +41,7 @@ def groups(tier):
         for kb in range(1, K + 1):
             gs.append({'name': 'step-intersect-%dx%d' % (ka, kb), 'fn': c07.rank_group, 'args': {'ka': ka, 'kb': kb}})
             gs.append({'name': 'step-difference-%dx%d' % (ka, kb), 'fn': c08.rank_group, 'args': {'ka': ka, 'kb': kb}})
+    gs.append(premise_group(tier))
     return gs
 
 
